@@ -5,6 +5,7 @@ import (
 	"go/token"
 	"go/types"
 	"math/big"
+	"os"
 	"sort"
 	"strings"
 
@@ -166,6 +167,34 @@ func (ft *FT) translate() {
 				if !freshBase(r) {
 					ft.obls = append(ft.obls, &Obligation{Name: fmt.Sprintf("fresh:result%d", i), Kind: "shape", Tags: ft.allTags(), Guard: tTrue, Goal: tFalse,
 						Src: "the contract says `fresh` but result " + fmt.Sprint(i) + " at " + ft.pos(ret.Pos()) + " is not a new allocation", Fn: fn.String()})
+				}
+			}
+		}
+	}
+	// invariants keyed `range(X)` that match no loop of the function itself: the loop may have been
+	// moved verbatim into a new helper ("extract function"); such a helper is inlined and its loops
+	// take these invariants (calls.go), so that the refactoring does not read as a violation
+	ft.orphanKeys = map[string]bool{}
+	ft.adoptedBodies = map[*Body]bool{}
+	if ft.con != nil {
+		for _, c := range ft.con.Invariants {
+			k := strings.TrimSpace(c.Loop)
+			if !strings.HasPrefix(k, "range(") {
+				continue
+			}
+			found := false
+			for _, lp := range b.loops {
+				if lp.RangeOf == "" {
+					lp.RangeOf = ft.e.rangeText(b.fn, lp)
+				}
+				if b.loopKeyMatches(lp, k) {
+					found = true
+				}
+			}
+			if !found {
+				ft.orphanKeys[k] = true
+				if os.Getenv("GOVC_DEBUG") != "" {
+					fmt.Fprintln(os.Stderr, "orphan key", k, "in", fn.Name())
 				}
 			}
 		}
